@@ -44,7 +44,7 @@ pub fn run(ctx: &Ctx) -> i32 {
     rep.assume("a program whose diagnostics differ between two analyses of the identical text is counted as nondeterministic (C10) and not judged here");
     let per_shard = ctx.tier.pick(12, 700);
     let styles = single_feature_styles();
-    let acc = run_sharded(ctx.jobs, |shard| {
+    let acc = run_sharded(ctx, |shard| {
         let mut acc = Acc::new();
         for k in 0..per_shard {
             let mut rng = Rng::derive(ctx.seed, 13_000 + shard as u64, k as u64);
